@@ -25,8 +25,10 @@ import (
 	"fmt"
 	"io"
 	"io/fs"
+	"math/big"
 	"math/rand"
 	"os"
+	"os/exec"
 	"path/filepath"
 	"sort"
 	"strings"
@@ -98,7 +100,21 @@ func optKeys(sp *Spec) []string {
 	return ks
 }
 
+// optText: the option value as written after `-o k=`; "@file:<path>" stands for the content of that file as a JSON string
+func optText(s string) string {
+	if strings.HasPrefix(s, "@file:") {
+		b, err := os.ReadFile(s[len("@file:"):])
+		if err != nil {
+			kit.Fatalf("option file: %v", err)
+		}
+		j, _ := json.Marshal(string(b))
+		return string(j)
+	}
+	return s
+}
+
 func optValue(s string) any {
+	s = optText(s)
 	var v any
 	if err := json.Unmarshal([]byte(s), &v); err != nil {
 		return s
@@ -168,7 +184,7 @@ func runInterp(sp *Spec, data []byte) ([]byte, string) {
 	name := filepath.Base(sp.File)
 	args := []string{"fq", "-d", sp.Format}
 	for _, k := range optKeys(sp) {
-		args = append(args, "-o", k+"="+sp.Opts[k])
+		args = append(args, "-o", k+"="+optText(sp.Opts[k]))
 	}
 	expr := sp.Expr
 	if expr == "" {
@@ -232,8 +248,14 @@ func scalarText(v any) string {
 		return bitBufDigest(x)
 	case []byte:
 		return fmt.Sprintf("bytes:%x", x)
-	default:
+	case bool, int, int64, uint64, float64, string, *big.Int:
 		return fmt.Sprintf("%T:%v", v, v)
+	default:
+		// maps / slices of decoded JSON-like values; anything else only by type (no addresses in the digest)
+		if b, err := json.Marshal(v); err == nil {
+			return fmt.Sprintf("%T:%s", v, b)
+		}
+		return fmt.Sprintf("%T", v)
 	}
 }
 
@@ -383,7 +405,7 @@ func explain(ps []pending, solo map[string]string) {
 			p.rec["sticky"] = false
 		} else {
 			// the process no longer reproduces the lone result even sequentially: state leaked and stayed
-			p.rec["detail"] = "alone afterwards in the same process still differs from the lone result: " + firstDiff(r.out, p.out)
+			p.rec["detail"] = "the state stays: run alone afterwards in the same process the job still does not give its lone result"
 			p.rec["sticky"] = true
 		}
 	}
@@ -553,7 +575,7 @@ func drive(specs []*Spec, solo map[string]string, out *kit.Out, g, njobs int, se
 		r := runSpec(b.sp)
 		d := firstDiff(r.out, b.out)
 		if r.Hash != solo[b.sp.ID] {
-			d = "alone afterwards in the same process still differs from the lone result: " + d
+			d = "the state stays: run alone afterwards in the same process the job still does not give its lone result"
 		}
 		out.Emit(map[string]any{"op": "detail", "j": b.j, "kind": b.sp.ID, "detail": d, "sticky": r.Hash != solo[b.sp.ID]})
 	}
@@ -567,12 +589,6 @@ func main() {
 		kit.Fatalf("usage")
 	}
 	switch os.Args[1] {
-	case "worker":
-		kit.ServeWorker(func(raw json.RawMessage) any {
-			sp := &Spec{}
-			kit.Unmarshal(raw, sp)
-			return runSpec(sp)
-		})
 	case "formats":
 		// registered group names, and per format the documented option names with their default values
 		info := map[string]any{}
@@ -587,19 +603,61 @@ func main() {
 		}
 		b, _ := json.Marshal(info)
 		fmt.Println(string(b))
+	case "one":
+		// one spec on stdin, its result on stdout: the lone run (this process does nothing else)
+		raw, _ := io.ReadAll(os.Stdin)
+		sp := &Spec{}
+		kit.Unmarshal(raw, sp)
+		b, _ := json.Marshal(runSpec(sp))
+		fmt.Println(string(b))
 	case "vet":
-		var jobs []json.RawMessage
+		var jobs [][]byte
 		kit.Cases(os.Args[2], func(_ int, raw []byte) { jobs = append(jobs, raw) })
 		out := kit.NewOut(os.Args[3])
 		n, mem, sec := kit.Atoi(os.Args[4]), kit.Atoi(os.Args[5]), kit.Atoi(os.Args[6])
 		self, _ := os.Executable()
-		kit.RunPool(self, []string{"worker"}, jobs, n, int64(mem), time.Duration(sec)*time.Second, func(r kit.PoolResult) {
-			msg := r.Msg
-			if len(msg) > 400 {
-				msg = msg[:400]
-			}
-			out.Emit(map[string]any{"i": r.ID, "outcome": r.Outcome, "msg": msg, "res": r.Out})
-		})
+		var mu sync.Mutex
+		var wg sync.WaitGroup
+		ch := make(chan int, len(jobs))
+		for i := range jobs {
+			ch <- i
+		}
+		close(ch)
+		for w := 0; w < n; w++ {
+			wg.Add(1)
+			go func() {
+				defer wg.Done()
+				for i := range ch {
+					ctx, cancel := context.WithTimeout(context.Background(), time.Duration(sec)*time.Second)
+					cmd := exec.CommandContext(ctx, "sh", "-c", fmt.Sprintf("ulimit -v %d; exec \"$0\" one", mem), self)
+					cmd.Stdin = bytes.NewReader(jobs[i])
+					cmd.Env = append(os.Environ(), "GOMAXPROCS=2")
+					var so, se bytes.Buffer
+					cmd.Stdout, cmd.Stderr = &so, &se
+					err := cmd.Run()
+					timedOut := ctx.Err() != nil
+					cancel()
+					rec := map[string]any{"i": i, "outcome": "ok"}
+					switch {
+					case timedOut:
+						rec["outcome"] = "hang"
+					case err != nil:
+						rec["outcome"] = "died"
+						msg := se.String()
+						if len(msg) > 300 {
+							msg = msg[:300]
+						}
+						rec["msg"] = msg
+					default:
+						rec["res"] = json.RawMessage(bytes.TrimSpace(so.Bytes()))
+					}
+					mu.Lock()
+					out.Emit(rec)
+					mu.Unlock()
+				}
+			}()
+		}
+		wg.Wait()
 		out.Close()
 	case "solo":
 		specs, _ := loadSpecs(os.Args[2])
